@@ -154,6 +154,7 @@ class DiffEqSolver:
         rFactor = np.vectorize(rFactor)
         ddThetaFactor = np.vectorize(ddThetaFactor)
         rhoFactor = np.vectorize(rhoFactor)
+        self._rhoFactor = rhoFactor
 
         # Calculate the number of points required for the Gauss-Legendre
         # quadrature
@@ -444,6 +445,7 @@ class DiffEqSolver:
                 self._evalPts.flatten(), self._evalRes)
             rhoVec[j] = np.sum(np.tile(self._weights, len(self._evalPts))*self._multFactor
                                * self._evalRes * self._evalPts.flatten()
+                               * self._rhoFactor(self._evalPts.flatten())
                                * rho(self._evalPts.flatten()))
 
         for j, z in phi.getCoords(1):
